@@ -55,12 +55,40 @@ CHECKS = {
             "(all histories within the bound), and random longer histories are validated step by step by TLC.",
             "Trusted: TLC, the 150-line adapter (object identity map, key <-> name parsing). Bound: 5 objects, list length 2 "
             "(quick) / 3 (thorough) for the walk; 8 objects, length 6 for traces.", "4 C11"),
+    "C12": ("TLA+ operators Decorate / SentOk (spec/Answer.tla, error-flag rule from Types.Family); TLC proves SentOk(Decorate) on the "
+            "enumerated universe and emits expected sent answers; real request/answer objects of every typed class pair pushed "
+            "through decorate_answer and through the real callback_route onto an in-process worker's send queue; recorded random "
+            "pairs validated by TLC",
+            "Every Result-Code constant of the library plus family boundaries x {Result-Code, Experimental-Result, both} x request "
+            "Session-Id absent / every length residue x boundary identifiers, rotating over all typed request/answer pairs.",
+            "Trusted: TLC, Json module, the builders of real request/answer objects. The handler's answer starts with the E flag "
+            "clear; with Experimental-Result only (no Result-Code sent) the flag is not constrained.", "4 C12"),
+    "C13": ("TLA+ state machine spec/Router.tla model-checked by TLC over all route tables (2 applications x 2 command codes) and "
+            "request sequences (RightHandler, ExactlyOneAnswer, FallbackRule); every TLC-enumerated scenario executed on a real "
+            "Bromelia object with real route registration and callback_route; recorded random scenarios validated by TLC",
+            "All 15 route tables x all request sequences up to length 2/3 x 4 handler outcomes: which handler ran, what reached the "
+            "worker's send queue, and the identity of the fallback answer.",
+            "Trusted: TLC, the in-process worker (real Worker objects on threading primitives, barrier waits short-circuited to the "
+            "timeout branch they always take below 40 parties).", "4 C13"),
+    "C16": ("TLA+ state machine spec/Session.tla model-checked by TLC (Unique, Counted; the historic reset-on-switch deviation is shown "
+            "to violate them); every TLC-enumerated operation sequence executed on the real generator under a controlled clock; "
+            "recorded histories validated by TLC",
+            "All 7^5 / 7^6 sequences over NewSession/Reoriginate/Tick for two identities through three generation routes and bulk "
+            "origin update, plus long random histories with many generations per clock second.",
+            "Trusted: TLC, the controlled clock substituted for bromelia._internal_utils.datetime, the Session-Id parser.", "4 C16"),
     "C17": ("TLA+ operator Family (long division of the 4-byte word, spec/Types.tla) cross-checked on the model against n div 1000 "
             "for all n in 0..65535; TLC-generated vectors replayed on the integer and answer-object predicates; recorded "
             "predicate results on random 32-bit words validated by TLC",
             "Exhaustive over all 65536 16-bit codes plus boundary 32-bit words through all ten predicates; random 32-bit "
             "words checked against the specification by TLC.",
             "Trusted: TLC, Json module, the construction of a DiameterAnswer carrying ResultCodeAVP(word).", "4 C17"),
+    "C19": ("TLA+ operators Outcome / YamlConfigs (spec/Config.tla) over abstract value classes; TLC proves order-independence on the "
+            "model and enumerates configurations and YAML spec lists with their expected results; each is concretised and run "
+            "through _convert_config_to_connection_obj, Diameter(config=...) and _convert_file_to_config; recorded random "
+            "configurations and YAML conversions validated by TLC",
+            "Every key x every abstract value class (single and double deviations), unknown key at every position, rotations / "
+            "transpositions / reversal of key order; all YAML lists of 1..2/3 entries over mode/transport spellings.",
+            "Trusted: TLC, Json module, the concrete representatives chosen per abstract value class.", "4 C19"),
     "C20": ("TLA+ operators BitTest/BitSet/BitClear, AddressData, TimeWord (spec/Types.tla) with model-level theorems "
             "(set/clear inverse, single-bit effect, byte arithmetic = integer arithmetic); TLC-generated vectors replayed on "
             "every Unsigned32/Address/Time class; recorded accessor behaviour on random inputs validated by TLC",
